@@ -23,6 +23,8 @@ def pool(tier):
             "DW_TAG_array_type", "DW_AT_sibling", "DW_FORM_addr", "DW_TAG_entry_point", "DW_AT_name", "DW_FORM_block2",
             "DW_TAG_member", "DW_LANG_C89", "DW_ATE_signed", "DW_OP_addr", "DW_INL_inlined",
             "STT_FUNC", "STT_ARM_TFUNC", "STT_SPARC_REGISTER", "STT_GNU_IFUNC", "STB_GLOBAL", "STB_MIPS_SPLIT_COMMON", "STV_HIDDEN",
+            # the same number in the other internal representation (signed, yet not negative) and unsigned ones above 2^63
+            "-0", "true value", "(6 -3 mod)", "(7 -3 mod)", "0x8000000000000000", "0x8000000000000001",
             "[5] elem pos", "3 hex", "3 value", "DW_AT_name value", "DW_AT_name hex",
             # constants of machine-specific ELF domains, as read from files (F1: ARM object, F2: MIPS object)
             "F1 symbol (pos == 1) label", "F1 symbol (pos == 9) label", "F1 symbol (pos == 0) binding",
@@ -31,10 +33,13 @@ def pool(tier):
     strs = ['""', '"a"', '"ab"', '"b"', '"a\\x00"', '"a\\x00b"', '"\\xff"', '"\\x7f"', '"\\x80a"', '"z"', '"1"']
     seqs = ["[]", "[1]", "[3]", "[0x3]", "[1, 2]", "[2, 1]", '["a"]', "[[1]]", "[[]]", '[1, "a"]', '["a", 1]', "[DW_AT_name]",
             "[[1], [2]]", '["a", "b"]', '[[], 1]', '[1, []]', "[DW_TAG_entry_point]", "[1, 2, 3]"]
-    asets = ["0 0 aset", "0 10 aset", "0 10 aset 20 30 aset add", "5 10 aset", "0 10 aset 20 31 aset add", "[0 10 aset]"]
+    asets = ["0 0 aset", "0 10 aset", "0 10 aset 20 30 aset add", "5 10 aset", "0 10 aset 20 31 aset add", "[0 10 aset]",
+             # ranges far apart in the 64-bit address space (start or length differing by 2^62, 2^63 and more)
+             "0x4000000000000001 0x4000000000000011 aset", "0x8000000000000002 0x8000000000000012 aset",
+             "0 0xffffffffffffffff aset", "0xffffffff81000000 0xffffffff81000010 aset", "0 0x8000000000000005 aset"]
     p = csts + strs + seqs + asets
     if tier == "thorough":
-        p += ["0x8000000000000000", "-0x8000000000000000", "DW_AT_decl_line", "DW_FORM_data1", "DW_OP_plus",
+        p += ["-0x8000000000000000", "DW_AT_decl_line", "DW_FORM_data1", "DW_OP_plus",
               "STT_OBJECT", "STB_LOCAL", "[[[1]]]", '"ab\\x00"', "[3, 3]", "[T_CONST]", "[true]", "[false]", "1 0 aset"]
     return p
 
@@ -226,12 +231,22 @@ def run(ctx):
                         {"a": P[i], "b": P[j], "c": P[k], "law": "transitivity"})
     evaluations += triples
 
+    # ---- the integers underneath (int.cc): every boundary value in BOTH internal representations
+    # (unsigned; signed, also when not negative), all ordered pairs, the six comparison operators
+    # against the exact integer comparison (= CmpM on two arithmetic constants)
+    from checks import C08 as c08
+    lat = c08.lattice()
+    istats = {"evaluations": 0, "disagreements": 0}
+    before = len(ctx.violations)
+    c08.compare_batch(ctx, lat, "cmp-lattice", istats, only={"lt", "gt", "le", "ge", "eq", "ne"})
+    evaluations += len(lat) * len(lat) * 6
+
     common.report_broken_obligations(ctx, oblig, bool(ctx.violations))
     nontriv = sum(1 for (i, j) in pairs if vals[i]["t"] == vals[j]["t"] and i != j)
     ctx.cov.update({
         "evaluations": evaluations,
         "distinct_nontrivial": nontriv,
-        "rule": "all ordered pairs of a %d-value pool (integers in every arithmetic domain, bool, slot-type, DW_*/ELF families with equal and different numbers incl. machine-specific STT/STB, strings with NUL/high bytes/prefixes, nested and heterogeneous sequences, address sets), each compared with 12 word forms and 6 infix forms in one query; non-trivial = the two values are distinct pool entries of the same type; all triples checked for transitivity on the implementation's table; every pair compared with the extracted model" % n,
+        "rule": "all ordered pairs of a %d-value pool (integers in every arithmetic domain, bool, slot-type, DW_*/ELF families with equal and different numbers incl. machine-specific STT/STB, strings with NUL/high bytes/prefixes, nested and heterogeneous sequences, address sets), each compared with 12 word forms and 6 infix forms in one query; non-trivial = the two values are distinct pool entries of the same type; all triples checked for transitivity on the implementation's table; every pair compared with the extracted model; + int.cc's six comparison operators on all ordered pairs of %d boundary operands (each value in both internal representations, signed and unsigned)" % (n, len(lat)),
         "exhaustive": True,
         "samples": [{"query": pair_query(P[1], P[5]), "holds": sorted(table.get((1, 5)) or [])},
                     {"a": P[2], "b": P[20], "holds": sorted(table.get((2, 20)) or [])}],
